@@ -3,6 +3,7 @@ package c18
 import (
 	"fmt"
 	"math/rand"
+	"os"
 	"regexp"
 	"strings"
 	"time"
@@ -259,6 +260,14 @@ func (g *gen) chain(fam string) Desc {
 		case 3:
 			mismatchComplete = true
 		}
+	case "quiet":
+		// the last read loop sees no output at all: the reader polls at its fastest while the
+		// deadline approaches (the schedule in which expiry races with the reader's exit)
+		d.Hint = "timeout"
+		d.TimeoutMs = 40 + r.Intn(31)
+		d.Echo = false
+		cut = r.Intn(k)
+		noComplete = r.Intn(2) == 0
 	case "once":
 		d.Hint = "any"
 		repeatAt, repeatN = r.Intn(k), 1+r.Intn(2)
@@ -291,7 +300,7 @@ func (g *gen) chain(fam string) Desc {
 		}
 		d.Replies[ans[i]] = append(d.Replies[ans[i]], texts[i+1])
 	}
-	if r.Intn(3) == 0 {
+	if r.Intn(3) == 0 && fam != "quiet" {
 		d.Default = []string{"% Invalid input\n", "% Unknown command\n", "?\n"}[r.Intn(3)]
 	}
 
@@ -339,7 +348,11 @@ func (g *gen) chain(fam string) Desc {
 		cbs = append(cbs, cb)
 	}
 	// decoys
-	for nd := r.Intn(3); nd > 0 && len(cbs) < 6; nd-- {
+	nDecoys := r.Intn(3)
+	if fam == "quiet" {
+		nDecoys = 0
+	}
+	for nd := nDecoys; nd > 0 && len(cbs) < 6; nd-- {
 		cb := CB{Name: "decoy", Answers: r.Intn(4) != 0, Answer: answerWords[r.Intn(len(answerWords))]}
 		switch r.Intn(5) {
 		case 0, 1: // same keyword as a stage: list order decides
@@ -424,6 +437,23 @@ func (g *gen) soup() Desc {
 	return d
 }
 
+// silent: the device never says anything; one or two callbacks wait in vain.
+func (g *gen) silent() Desc {
+	r := g.r
+	d := Desc{Family: "quiet", Hint: "timeout", Replies: map[string][]string{}, MaxLines: 4, TimeoutMs: 40 + r.Intn(31)}
+	if r.Intn(2) == 0 {
+		d.Input = inputs[r.Intn(len(inputs))]
+	}
+	for i, n := 0, 1+r.Intn(2); i < n; i++ {
+		cb := CB{Name: fmt.Sprintf("cb%d", i), Answers: true, Answer: "y", Complete: i == 0 && r.Intn(2) == 0}
+		g.trigger(&cb, keywords[r.Intn(len(keywords))])
+		d.CBs = append(d.CBs, cb)
+	}
+	d.Repeat, d.RepeatMs = 30, 3+r.Intn(6)
+	g.transport(&d)
+	return d
+}
+
 // admissible enforces the generator's preconditions; the reference trigger is evaluated by brute
 // force on the empty output.
 func admissible(d Desc) bool {
@@ -479,12 +509,20 @@ func GenCase(r *rand.Rand) Desc {
 	for {
 		g := &gen{r: r, rend: map[string]string{}}
 		var d Desc
-		switch x := r.Intn(100); {
-		case x < 50:
+		x := r.Intn(100)
+		if f := os.Getenv("C18_FAMILY"); f != "" { // experiments only
+			x = map[string]int{"silent": 0, "quiet": 20, "timeout": 40, "chain": 60}[f]
+		}
+		switch {
+		case x < 15:
+			d = g.silent()
+		case x < 35:
+			d = g.chain("quiet")
+		case x < 55:
 			d = g.chain("timeout")
-		case x < 77:
+		case x < 80:
 			d = g.chain("chain")
-		case x < 85:
+		case x < 87:
 			d = g.chain("once")
 		case x < 95:
 			d = g.soup()
